@@ -5,6 +5,7 @@
 (*   budgets  : runs of one program under increasing budgets      (C09)    *)
 (*   switches : per budget, runs under the four switch settings     (C08)   *)
 (*   repeat   : repetitions of one job in processes/threads/histories (C10)*)
+(*   inline   : a macro program and its hand-inlined twin          (C17)   *)
 (***************************************************************************)
 EXTENDS Outcomes, Json, IOUtils, TLC
 
@@ -20,8 +21,11 @@ Verdict(p) == p \/ PrintT("VP|fail|" \o ToString(E.case))
 TBudgets == Is("budgets") /\ Verdict(WithinBudget(E.runs) /\ MonotoneObs(E.runs))
 TSwitches == Is("switches") /\ Verdict(\A k \in DOMAIN E.sweeps : AllEqual(E.sweeps[k]))
 TRepeat == Is("repeat") /\ Verdict(AllEqual(E.runs))
+\* C17, programs whose sizes depend on values: a program with macro calls and the same program with every
+\* call written out in place (block labels renamed apart) - generated so that only one layout is consistent
+TInline == Is("inline") /\ Verdict(AllEqual(E.runs))
 
-TNext == TBudgets \/ TSwitches \/ TRepeat
+TNext == TBudgets \/ TSwitches \/ TRepeat \/ TInline
 TSpec == l = 1 /\ [][TNext]_l
 
 Accepted ==
